@@ -62,7 +62,7 @@ CLAIMED = {
         text="C13_ops/C13_bytes/C13_length/C13_roundtrip: for every width, sign, byte order and integer a fixint field serialises as exactly size_of raw pushes in the chosen order (never a varint) and decodes back; the extracted model is compared with the real crate on every generated value and the direct oracle (bytes == to_{le,be}_bytes, round trip) runs on the implementation.",
         note=NOTE + "serde's [u8;N] impl (array as tuple) and to_le_bytes/from_le_bytes",
         design="6 (C13)"),    'C14': dict(
-        text="C14_conforms_typed: for EVERY schema tree and EVERY tree of named data-model items, if the items conform to the schema (kinds, field names and order, variant names and indices, arity, element types; the Schema kind = a serialised schema tree) then the erased value has exactly the shape the schema prescribes; C14_schema_reader_exact: hence a reader that knows nothing but the schema parses the value's encoding followed by any bytes, consuming exactly the encoding (through the round-trip theorem of C01). Partial on the 'programs' axis: that the items a given Rust type emits conform to that type's SCHEMA constant depends on rustc, serde's impls and two proc-macros and is not a theorem; it is decided per (type, value) by running the extracted `conforms` and `schema_skip` and an independent Rust conformance checker on the serde call trees captured by a recording serializer for a corpus covering every built-in Schema impl (incl. heapless, uuid, chrono, Key, the schema types themselves) and the workspace derive (all four struct forms, enums mixing the four variant forms with 1..129 variants, generics, nesting).",
+        text="C14_conforms_typed: for EVERY schema tree and EVERY tree of named data-model items, if the items conform to the schema (kinds, field names and order, variant names and indices, arity, element types; the Schema kind = a serialised schema tree) then the erased value has exactly the shape the schema prescribes; C14_schema_reader_exact: hence a reader that knows nothing but the schema parses the value's encoding followed by any bytes, consuming exactly the encoding (through the round-trip theorem of C01). Per-type layer: C14_builtin_rows_total and C14_builtin_rows_conform: for every type expression over the built-in impls (and the plain derive forms), at any nesting, the schema that the `impl Schema for X` rows TRANSLATED FROM THE SOURCE ON EVERY RUN build for it is one that the items a value of the type serialises as (hand model of serde's Serialize impls, emit_ok) conform to; C14_alias_rows: the alloc / heapless 0.8 rows equal the std / heapless 0.7 rows. The model's reading of the rows (schema_of) is compared with the real T::SCHEMA of every corpus type, and emit_ok with the serde call tree recorded from every corpus value, on every run. Partial on the 'programs' axis: that rustc, serde, serde_derive and the Schema derive make a particular Rust type emit what emit_ok describes is not a theorem; it is decided per (type, value) by running the extracted `conforms`, `emit_ok` and `schema_skip` and an independent Rust conformance checker on the serde call trees captured by a recording serializer for a corpus covering every built-in impl and the workspace derive.",
         note=NOTE + "rustc + serde impls + serde_derive + the Schema derive (their joint output is captured at run time, not modelled); nalgebra integration not built in the harness",
         design="7 (C14)"),
     'C15': dict(
